@@ -104,3 +104,12 @@ impl Sink {
         std::fs::write(format!("{dir}/{name}.meta.json"), serde_json::to_string_pretty(&meta).unwrap()).unwrap();
     }
 }
+
+/// Run a piece of implementation code; a panic becomes `Err(message)` (the case answer is then `panic`).
+pub fn catch<T>(f: impl FnOnce() -> T) -> Result<T, String> {
+    match std::panic::catch_unwind(std::panic::AssertUnwindSafe(f)) {
+        Ok(v) => Ok(v),
+        Err(e) => Err(if let Some(s) = e.downcast_ref::<&str>() { s.to_string() }
+                      else if let Some(s) = e.downcast_ref::<String>() { s.clone() } else { "panic".into() }),
+    }
+}
